@@ -131,8 +131,49 @@ def run(repo, only_props=None, only_ids=None, jobs=16):
     return summary, lines
 
 
+def seeded_for(prop_id):
+    out = []
+    d = os.path.join(VERIF, 'seeded')
+    if not os.path.isdir(d):
+        return out
+    for name in sorted(os.listdir(d)):
+        mp = os.path.join(d, name, 'meta.json')
+        pp = os.path.join(d, name, 'patch.diff')
+        if os.path.exists(mp) and os.path.exists(pp):
+            try:
+                meta = json.load(open(mp))
+            except Exception:
+                continue
+            if meta.get('breaks_property') == prop_id:
+                out.append((name, pp))
+    return out
+
+
+def run_seeded(name, patch, repo, prop_id):
+    tmp = tempfile.mkdtemp(prefix='sa_seeded_')
+    try:
+        shutil.copytree(os.path.join(repo, 'pysyncobj'), os.path.join(tmp, 'pysyncobj'))
+        r = subprocess.run(['patch', '-p1', '-s', '-i', patch], cwd=tmp, capture_output=True, text=True)
+        if r.returncode != 0:
+            return name, 'skipped'
+        env = dict(os.environ, VERIF_EVIDENCE_DIR=os.path.join(tmp, 'ev'), VERIF_TIER='quick')
+        r = subprocess.run([os.path.join(VERIF, 'check'), prop_id, '--tier', 'quick', '--repo', tmp], capture_output=True, text=True, env=env)
+        return name, ('killed' if r.returncode == 1 else ('error' if r.returncode else 'missed'))
+    finally:
+        shutil.rmtree(tmp, ignore_errors=True)
+
+
 def run_for_property(prop_id, repo, seed):
     summary, lines = run(repo, only_props=[prop_id])
+    seeded = seeded_for(prop_id)
+    with ThreadPoolExecutor(max_workers=8) as ex:
+        res = list(ex.map(lambda s_: run_seeded(s_[0], s_[1], repo, prop_id), seeded))
+    summary['seeded_changes_applicable'] = len([r for r in res if r[1] != 'skipped'])
+    summary['seeded_changes_detected'] = len([r for r in res if r[1] == 'killed'])
+    for name, st in res:
+        lines.append('seeded   %-34s %s' % (name, st))
+        if st in ('missed', 'error'):
+            summary.setdefault('selftest_missed_required', []).append('seeded:' + name)
     summary['_lines'] = lines
     return summary
 
